@@ -142,6 +142,28 @@ def check_copies(costs_a, extra, how):
     return out
 
 
+def check_mixed_classes(costs, rot):
+    """A population that mixes the individual classes of the framework (results of two algorithms ranked together, stored
+    designs next to fresh offspring): ranks by definition."""
+    from .c20 import make_as, CLASSES
+    pop = []
+    for j, c in enumerate(costs):
+        ind = make_as(CLASSES[(j + rot) % len(CLASSES)], [0.0])
+        ind.costs_signed = list(c)
+        pop.append(ind)
+    try:
+        selector().fast_nondominated_sorting(pop)
+    except Exception as e:
+        return [("C02:mixed-classes:exception:%s" % type(e).__name__, "sorting %r (classes rotated by %d) raised %r" % (costs, rot, e))]
+    _KEEP.append(pop)
+    got = [p.features.get('front_number') for p in pop]
+    exp = ref_ranks(list(costs))
+    if got != exp:
+        return [("C02:mixed-classes:rank", "costs %r carried by %r: front numbers %r, definition %r (ids %r)" % (
+            costs, [type(p).__name__ for p in pop], got, exp, [p.id for p in pop]))]
+    return []
+
+
 def check_option_selector(costs, variant):
     """The sorter of selectors built with constructor options ranks by constrained Pareto dominance like any other."""
     from artap.individual import Individual
@@ -237,6 +259,17 @@ def _shard(shard, col: Collector):
                             col.violation(key, "copies", msg, {"costs_a": costs_a, "extra": extra, "how": how})
         col.sample({"kind": "sorted population, then its copies sorted with newcomers", "how": how, "first": list(first)}, 1)
         return
+    if shard[0] == "mixedcls":
+        _, rot = shard
+        alpha = alphabet("V3x2F")
+        for n in (2, 3, 4):
+            for costs in itertools.product(alpha if n < 4 else alpha[::2], repeat=n):
+                col.case()
+                col.nontrivial(("mixedcls", rot, costs))
+                for key, msg in check_mixed_classes(costs, rot):
+                    col.violation(key, "mixedcls", msg, {"costs": costs, "rot": rot})
+        col.sample({"kind": "populations mixing individual classes", "rotation": rot}, 1)
+        return
     if shard[0] == "optsel":
         _, variant = shard
         alpha = alphabet("V3x2F")
@@ -300,6 +333,8 @@ def replay(sub, case):
         return check_case(costs if case["order"] == "as-listed" else costs[::-1])
     if sub == "copies":
         return check_copies(tuple(tuple(c) for c in case["costs_a"]), tuple(tuple(c) for c in case["extra"]), case["how"])
+    if sub == "mixedcls":
+        return check_mixed_classes(tuple(tuple(c) for c in case["costs"]), case["rot"])
     if sub == "optsel":
         return check_option_selector(tuple(tuple(c) for c in case["costs"]), case["variant"])
     return check_case([tuple(c) for c in case["costs"]], tuple(case["order"]) if case.get("order") else None)
@@ -351,7 +386,10 @@ def run(tier, seed):
     for variant in ("eps_class", "eps_list", "pareto_scalar"):
         shards.append(("optsel", variant))
     for n in BIG_SIZES:
-        shards.append(("big", n))
+        if n < 1000 or tier == "thorough":       # sorting a chain of a thousand takes artap most of a minute
+            shards.append(("big", n))
+    for rot in range(5):
+        shards.append(("mixedcls", rot))
     col = run_shards(_shard, shards)
     posets = {1: 1, 2: 3, 3: 19, 4: 219, 5: 4231}
     realised = {k: len(v) + 1 for k, v in col.sets.items() if k.startswith("rel_n")}  # +1: the empty relation
